@@ -254,6 +254,20 @@ def run(ctx):
         p0 = [o for o in rows[0]["ops"] if o["op"] == "push"][:2]
         samples += [{"push": {"kind": o["kind"], "names_set": o["g"], "signer_indices": [s["i"] for s in o["sigs"]], "result": o["res"]}} for o in p0]
 
+    # ---------------- (b') several appenders delivering the same new set / overlapping ranges at the same moment
+    rc, out, trace = core.harness_pkg(ctx, "explorer_guardiansets", "^TestVerifC19Dup$", timeout=1500)
+    drows = core.read_jsonl(trace)
+    dsum = [r for r in drows if r.get("k") == "dup-summary"]
+    if rc != 0 or not dsum:
+        ctx.problem("correspondence", "go harness C19 (concurrent appenders)", out[-1500:])
+    else:
+        ctx.cov["concurrent_appenders"] = {k: v for k, v in dsum[0].items() if k in ("rounds", "deliveries", "lookups")}
+        ctx.evaluations += dsum[0]["deliveries"]
+    for r in drows:
+        if r.get("k") == "dup":
+            ctx.problem("monitor", r["mon"][0], "observed on the implementation (TestVerifC19Dup round %d)" % r["round"], concrete=True,
+                        replay={k: v for k, v in r.items() if k not in ("mon", "k")}, key="concurrent-appends:misaligned")
+
     # ---------------- (c) lookups during appends, under the race detector (both tiers: this is the schedule clause)
     rc, out, trace = core.harness_pkg(ctx, "explorer_guardiansets", "^TestVerifC19Race$", race=True, timeout=1500)
     rrows = core.read_jsonl(trace)
